@@ -94,12 +94,25 @@ def run(run, pid):
                     continue
                 if not r["holds"]:
                     short = short or W.Shortest(fv, A.names)
-                    atoms = short.word([x if not isinstance(x, tuple) else x for x in r["raw_word"]])
-                    text = W.text_of(atoms)
-                    got = W.run_method(P, key[0], key[1], flags, text)
                     spec_of = m._driver_spec[key] if key in getattr(m, "_driver_spec", {}) else M.spec_text(key[0], key[1], flags)
-                    want = W.oracle(spec_of, flags, text)
-                    replayed = want is not None and ((got[0] == "accept") != bool(want) or got[0] == "crash")
+                    # concrete inputs: the shortest string of the symbol word first, then strings in which one of its nonterminals contains
+                    # a chosen token (a difference between two anchors, e.g. Directives[V] / Directives[K], shows only inside them), for
+                    # the word of either side; the first on which the real method and the Earley oracle disagree is the replayed input
+                    replayed = False
+                    first = None
+                    for raw in (r["raw_word"], r.get("other_raw_word")):
+                        if raw is None or replayed:
+                            continue
+                        for atoms in short.variants(list(raw)):
+                            text = W.text_of(atoms)
+                            got = W.run_method(P, key[0], key[1], flags, text)
+                            want = W.oracle(spec_of, flags, text)
+                            first = first or (text, got, want)
+                            if want is not None and ((got[0] == "accept") != bool(want) or got[0] == "crash"):
+                                replayed = True
+                                break
+                    if not replayed:
+                        text, got, want = first
                     ok &= ob(q + ":P1", False, "%s and the specification's %s differ: the symbol word [%s] is accepted by %s; concrete input %r: method %s, grammar %s" % (
                         m.key_text(key), spec_of, " ".join(r["word"]), r["accepted_by"], text, got,
                         "derives it" if want else "does not derive it"),
